@@ -2,6 +2,7 @@ package pimport
 
 import (
 	"context"
+	"errors"
 	"fmt"
 	"sort"
 	"strings"
@@ -10,6 +11,7 @@ import (
 
 	ledger "github.com/formancehq/ledger/internal"
 	storagecommon "github.com/formancehq/ledger/internal/storage/common"
+	ledgerstore "github.com/formancehq/ledger/internal/storage/ledger"
 	"github.com/formancehq/ledger/verifh/ev"
 	"github.com/formancehq/ledger/verifh/lx"
 	"github.com/formancehq/ledger/verifh/world"
@@ -454,7 +456,8 @@ func ReusedReferenceImports() func(r *ev.Run) (map[string]any, bool) {
 			switch {
 			case ierr == nil:
 				viol("C14:import:reused-reference-accepted", "Import returned nil")
-			case lx.Classify(ierr) != "reference_conflict":
+			case !errors.Is(ierr, ledgerstore.ErrTransactionReferenceConflict{}):
+				// (whatever wraps it: an import error answered 400 is still a reference conflict)
 				viol("C14:import:reused-reference:error-kind:"+lx.Classify(ierr), "the error is not a reference conflict")
 			}
 			if len(logs) != cs.K || len(txs) != cs.K {
